@@ -294,9 +294,12 @@ type Spec struct {
 	InitShards int    `json:"initShards"`
 	// K8s: the shards are listed and scaled by the real Kubernetes replicas manager on a client-go fake whose
 	// StatefulSet and pods mirror the simulated pods (ordinals above 9 matter: "prom-10" sorts before "prom-2")
-	K8s     bool         `json:"k8s,omitempty"`
-	Targets []TargetSpec `json:"targets"`
-	Initial []Placement  `json:"initial,omitempty"`
+	K8s bool `json:"k8s,omitempty"`
+	// BrokenReplica: a second replica is listed BEFORE this one; its only shard answers every request with 503 and
+	// a JSON error body (what a sidecar whose Prometheus is down sends), through the real api.Get / api.Post
+	BrokenReplica bool         `json:"brokenReplica,omitempty"`
+	Targets       []TargetSpec `json:"targets"`
+	Initial       []Placement  `json:"initial,omitempty"`
 }
 
 // World is a running closed loop.
@@ -319,6 +322,9 @@ type World struct {
 	k8sCli      *fake.Clientset
 	k8sMgr      shard.Manager
 	k8sListings int
+	CycleWait   time.Duration // watchdog of one cycle (default 120 s)
+	brokenSrv   *httptest.Server
+	BrokenHits  int // requests the broken replica's shard answered with 503
 	posts       map[string]int
 	allSync     bool
 	Log         []string
@@ -353,8 +359,29 @@ func (g *gate) Replicas() ([]shard.Manager, error) {
 	if _, ok := <-g.start; !ok {
 		return nil, errors.New("harness shutdown")
 	}
+	if g.w.Spec.BrokenReplica {
+		return []shard.Manager{&brokenReplica{w: g.w}, g.w}, nil
+	}
 	return []shard.Manager{g.w}, nil
 }
+
+type brokenReplica struct{ w *World }
+
+func (b *brokenReplica) Shards() ([]*shard.Shard, error) {
+	if b.w.brokenSrv == nil {
+		b.w.brokenSrv = httptest.NewServer(http.HandlerFunc(func(rw http.ResponseWriter, r *http.Request) {
+			b.w.mu.Lock()
+			b.w.BrokenHits++
+			b.w.mu.Unlock()
+			rw.Header().Set("Content-Type", "application/json")
+			rw.WriteHeader(503)
+			_, _ = io.WriteString(rw, `{"status":"error","err":"get runtime info: prometheus is not reachable: dial tcp 127.0.0.1:9090: connect: connection refused"}`)
+		}))
+	}
+	return []*shard.Shard{shard.NewShard("broken-0", b.w.brokenSrv.URL, true, sc.Quiet)}, nil
+}
+
+func (b *brokenReplica) ChangeScale(int32) error { return nil }
 
 func hashOf(id int) uint64 { return uint64(1000 + id) }
 
@@ -611,6 +638,13 @@ func NewWorld(spec Spec, root string, rseed int64) (*World, error) {
 	return w, nil
 }
 
+func (w *World) cycleWait() time.Duration {
+	if w.CycleWait > 0 {
+		return w.CycleWait
+	}
+	return 120 * time.Second
+}
+
 // CycleObs is what one coordination cycle showed.
 type CycleObs struct {
 	Scales  []int32
@@ -635,8 +669,8 @@ func (w *World) Cycle() CycleObs {
 	case <-w.gate.done:
 	case p := <-w.fin:
 		return CycleObs{Err: "coordinator died: " + p}
-	case <-time.After(120 * time.Second):
-		return CycleObs{Err: "cycle did not complete within 120 s"}
+	case <-time.After(w.cycleWait()):
+		return CycleObs{Err: fmt.Sprintf("cycle did not complete within %v", w.cycleWait())}
 	}
 	// faults and delays last for the cycle they were armed for
 	for _, nd := range w.nodes {
